@@ -277,7 +277,8 @@ def _c11_sweeps():
     sw2 = [{"prog": prog_str(t), "pre": pre} for pre in (0, 1, 6, 14) for t in tp2]
     thr = [{"prog": prog_str(t), "pre": pre, "throwat": k} for pre in (0, 1, 7) for t in thread_programs(["B", "G2", "G3"], 3, 1) for k in (1, 2, 3)]
     return [
-        sweep("sweep-3x1", "c11_vector", (1, 2), sw, what="every multiset of three growth calls out of push_back / emplace_back / grow_by(2|3,value) / grow_by(2) / grow_to_at_least(5) from start sizes 0,1,2,3,7,8,15,16", tiers=("quick", "thorough"), weight=2.0),
+        sweep("sweep-3x1-q", "c11_vector", (1, 1), [x for x in sw if x["pre"] in (0, 1, 7, 15)], what="every multiset of three growth calls out of push_back / emplace_back / grow_by(2|3,value) / grow_by(2) / grow_to_at_least(5) from start sizes 0,1,7,15", tiers=("quick",), weight=2.0),
+        sweep("sweep-3x1", "c11_vector", (2, 2), sw, what="same from start sizes 0,1,2,3,7,8,15,16", tiers=("thorough",), weight=2.0),
         sweep("sweep-2x2", "c11_vector", (1, 2), sw2, what="every pair of two-call sequences over push_back / grow_by(2|5) / grow_to_at_least(9) from start sizes 0,1,6,14"),
         sweep("sweep-throw", "c11_vector", (1, 2), thr, what="three growth calls, the first / second / third element construction throws, start sizes 0,1,7", weight=2.0),
     ]
@@ -732,3 +733,28 @@ PROPS["C15"] = {
 # properties whose thorough tier contains program sweeps get a longer wall-clock budget (a run that reaches it stops with exhaustive=false)
 for _p in ("C08", "C09", "C10", "C11", "C12", "C13"):
     PROPS[_p]["budget"] = {"thorough": 1500.0}
+
+# additions of the third session, appended to the explanations (MANIFEST level_claimed.text and evidence)
+_EXTRA = {
+    "C01": " (a2) single thread, EVERY operation sequence up to length 7/8 on one real arena_slot over {spawn with isolation tag 0/1/2, get_task with isolation 0/1/2, steal with isolation 0/1, spawn a mailed affinity proxy, mailbox claim}: nothing lost, handed out twice, handed to a non-matching taker, or refused while a matching task is in the pool. Fault legs: the copy of the functor into its task throws inside task_group::run / defer and the group keeps being used.",
+    "C02": " Bounded-queue legs with a failing push (a sleeper must be woken by the next successful push); address-waiter bucket collisions; execute slot hand-over.",
+    "C03": " Every exception object thrown by a body must be destroyed by the end (a second thrower must not overwrite the captured exception); bodies that call task_arena::execute on the arena they already run in and throw afterwards.",
+    "C04": " Two cancellers of a leaf context (no children) and of a never-bound context.",
+    "C05": " The partitioners' range pool (range_vector: ring indices, relative depths) is driven by EVERY operation sequence up to length 9/11 against a deque model; *-nested legs let a body re-enter the dispatcher on its own worker.",
+    "C06": " The *-nested leg lets every body re-enter the dispatcher on its own worker (a nested wait takes the not yet stolen sibling).",
+    "C08": " Program sweeps: every assignment of section sequences over the lock's operation alphabet to 2-3 threads, incl. one scoped_lock object per thread reused across sections; two mutexes sharing an address-waiter bucket.",
+    "C09": " Program sweeps: EVERY assignment of operation sequences of length 1-2/3 over push/try_push/pop/try_pop to 2-3 threads (blocking programs only if the reference model cannot block forever), from empty / non-empty / page-boundary starts, with the k-th element copy throwing. A relaxed reference model classifies the recorded finding 'a failed push leaves an invalid entry that counts against the capacity' (also for stuck executions); anything else is a violation.",
+    "C10": " Program sweeps over insert/erase/find/count/emplace/accessors on one key and on a parent/child bucket pair, incl. the table one insert below the growth threshold (segment enable + lazy rehash in the window); accessor exclusivity is tracked per element.",
+    "C11": " Program sweeps over the growth calls from start sizes 0..16 incl. throwing constructors; a sequential leg drives growth calls across 2^31 and 2^32 (one-byte elements, address space only).",
+    "C12": " Program sweeps per container kind (3 threads x 1 op, 2 threads x 2 ops, constant hash), insert(node_type&&) of nodes extracted from another container, equal_range checked at the end; a count() that overlaps inserts of other keys is checked against bounds only (the property promises no atomic count).",
+    "C13": " Program sweeps: every assignment of push/try_pop sequences of length 1-2 to three threads on heaps of 0, 2..7 elements with priorities above / between / equal to the contents, four-thread batches, throwing copies.",
+    "C14": " The buffer operation-sequence legs of C15 are part of this check (message conservation at buffering nodes); a *-nested leg lets task-based bodies re-enter the dispatcher.",
+    "C15": " limiter_node<int,int>: decrement values 1/2, a decrement arriving while a put is in flight (sent from inside the successor).",
+    "C16": " Three-thread leg: an isolated waiter must not take a non-isolated loop chunk that travels as an affinity proxy; priority leg: the single worker is handed over to the higher-priority arena instead of draining its low-priority pool.",
+    "C17": " Foreign free of blocks from scalable_aligned_malloc whose user address lies inside a slot; calloc of a recycled (dirty) block of every swept size.",
+    "C18": " Back-reference table exhaustion (8400 live large objects) with memory staying exhausted from an explorer-chosen request on, for the default pool and for a memory pool over a drained default pool; pool_realloc histories; the allocator must never mremap/munmap raw memory of a user pool; realloc of slab / large / remappable blocks to unrepresentable sizes.",
+    "C19": " First accesses after the container was move-constructed / move-assigned (element count and table must travel together).",
+    "C20": " Suspension inside a critical task (priority flow-graph node) in a one-slot arena with a late foreign resume; owner recall when the thread leaving a foreign stack must start a fresh coroutine (three threads, step-driven).",
+}
+for _p, _t in _EXTRA.items():
+    PROPS[_p]["explanation"] += _t
